@@ -911,7 +911,8 @@ impl ProtocolState {
                         }
                     }
                     _ => {
-                        self.complete_operation_as_failure(id, GneissError::new_connection_closed("internal operation failed on connection close"))?;
+                        // a DISCONNECT that could not be sent before the connection went away is simply dropped
+                        ignore_user_initiated_disconnect(self.complete_operation_as_failure(id, GneissError::new_connection_closed("internal operation failed on connection close")))?;
                     }
                 }
             }
@@ -1023,7 +1024,10 @@ impl ProtocolState {
         mem::swap(&mut completions, &mut self.high_priority_operation_queue);
         let (_, failures) = self.partition_high_priority_queue_for_disconnect(completions.into_iter());
 
-        result = fold_mqtt_result(result, self.complete_operation_sequence_as_failure(failures.into_iter(), generate_connection_closed_error));
+        for failure in failures {
+            // as above: a queued DISCONNECT failing here must not turn connection loss into a halted client
+            result = fold_mqtt_result(result, ignore_user_initiated_disconnect(self.complete_operation_as_failure(failure, generate_connection_closed_error())));
+        }
 
         /*
          * write completion pending operations can be processed immediately and either failed
@@ -1037,8 +1041,10 @@ impl ProtocolState {
         /* keep the ones that pass policy (qos 0 publish under once case) */
         self.user_operation_queue.append(&mut retained);
 
-        /* fail everything else */
-        result = fold_mqtt_result(result, self.complete_operation_sequence_as_failure(rejected.into_iter(), generate_offline_queue_policy_failed_error));
+        /* fail everything else (a DISCONNECT written but not yet flushed included: see above) */
+        for failure in rejected {
+            result = fold_mqtt_result(result, ignore_user_initiated_disconnect(self.complete_operation_as_failure(failure, generate_offline_queue_policy_failed_error())));
+        }
 
         /*
          * unacked operations are processed as follows:
@@ -2213,6 +2219,13 @@ impl ProtocolState {
     // Test accessors
     pub(crate) fn get_negotiated_settings(&self) -> &Option<NegotiatedSettings> {
         &self.current_settings
+    }
+}
+
+fn ignore_user_initiated_disconnect(result: GneissResult<()>) -> GneissResult<()> {
+    match result {
+        Err(GneissError::UserInitiatedDisconnect(_)) => Ok(()),
+        _ => result
     }
 }
 
